@@ -54,6 +54,7 @@ type FuncContract struct {
 	Sweep       bool                       // zero-annotation entry of a no-panic sweep: only the receiver is assumed non-nil
 	CallEvents  []CallEvent                // calls of the named callees made by this function are recorded on the ghost trace: Called(id, argument)
 	ChanEvents  bool                       // select statements record what they send and receive on the ghost trace (Send / Recv events)
+	WakeEvents  bool                       // chanevents wakeups: a receive of a value without identity (struct{}, time.Time) or on a closed channel is recorded too, as Recv(channel, 0)
 	NoAutoFrame bool                       // do not generate the automatic "objects that existed before the loop keep their content" loop invariants
 	Expose      bool                       // element reads below existential quantifiers are also stated outside them (helps E-matching on goals)
 	GhostMaps   []string                   // assumed contracts only: existentially chosen Int->Int maps, fresh at every call (e.g. the permutation of a sort)
@@ -309,6 +310,7 @@ func (db *ContractDB) parseFile(file, pkgPath string) error {
 					fc.NoAutoFrame = true
 				case "chanevents":
 					fc.ChanEvents = true
+					fc.WakeEvents = strings.TrimSpace(crest) == "wakeups"
 				case "callevents":
 					// callevents Callee:argIndex ...   (argument 0 of a method call is the receiver)
 					for _, w := range strings.Fields(crest) {
